@@ -1,4 +1,5 @@
 import ArcSwapModel.M.Frame
+import ArcSwapModel.Inv.ListInv
 import ArcSwapModel.Props.C08
 import ArcSwapModel.Tie.DebtPayAll
 import ArcSwapModel.Tie.HelpingHelp
@@ -110,10 +111,22 @@ theorem slot_advances (cfg : Cfg) (p c : Nat) (s : Shared) (l : Locals) (b : Boo
   simp only [stepPP]
   (repeat' split) <;> simp
 
+/-- **the walk's road is finite and only ever shortens**: in every reachable state the nodes form a
+    chain `L` without repetition; from any node on it, following `next` runs through the strictly
+    shorter suffix behind it to the end; and whatever anybody does next, the chain only grows at
+    the front — behind a walker, never ahead of it. -/
+theorem C09_walk_road_finite {st : State} (h : Reachable st) :
+    ∃ L, ListInv st L ∧ L.Nodup ∧ L.length ≤ st.sh.nNodes ∧
+      (∀ n, n ∈ L → ∃ L1 L2, L = L1 ++ n :: L2 ∧ chainFrom (nextOf st.sh) (st.sh.nodes n).next L2) ∧
+      (∀ sched, ∃ pre, ListInv (run st sched) (pre ++ L)) := by
+  obtain ⟨L, hL⟩ := ListInv.reachable h
+  exact ⟨L, hL, chainFrom_nodup hL.1, hL.length_le, fun n hn => chainFrom_next hL.1 n hn,
+    fun sched => hL.run (OwnInv.reachable h) sched⟩
+
 /-!
-Not proved yet: the solo bound `soloFuel ≤ c₁·nodes + c₂` (it needs, besides the lemmas above,
-that the list snapshot is acyclic — a global invariant of `LIST_HEAD`/`next` — and that the steps of
-the nested load do not modify the helped node's control word).  The harness checks the bound
+Not proved yet: the composed solo bound `soloFuel ≤ c₁·nodes + c₂` (besides the lemmas above and the
+list invariant it needs that the steps of the nested load do not modify the helped node's control
+word).  The harness checks the bound
 directly: from intermediate states sampled by the scheduler, all threads but one are frozen and
 that one must finish its operation within `60 + 40·(nodes+1)` steps (`solo*` families).
 -/
